@@ -5,8 +5,10 @@ import OV.Lemmas.C06Solve
 import OV.Lemmas.C06SolveC
 import OV.Lemmas.C06Multi
 import OV.Lemmas.C06SoundOr
+import OV.Lemmas.C06SoundTag
 import OV.Lemmas.C06CompleteOr
 import OV.Lemmas.C06CommuteSem
+import OV.Lemmas.C06Greedy
 /-!
 # C06 — the pattern matcher reports a match exactly when the subgraph is an instance
 
@@ -42,29 +44,42 @@ theorem match_sound_partial (E : Env) (root : NodeId) (rm : Bool) (r : Result)
       (rm = true → Removable E.g r.nodes r.outputs) :=
   patternMatch_sound E root rm r hno htopo har h
 
-/-- **Soundness with `BacktrackingOr`** (code after repair C06-F3, /repo e143b53: `merge` keeps the node
-and value bindings of a successful alternative).  For every pattern of the pattern language —
-`BacktrackingOr` nested arbitrarily, with or without tag variables, any number of output nodes; the only
-exclusion is an `OpIdDispatchOr` *with* a tag variable (`backOk`), whose `bind` result the code ignores —
-a match reported by `Pattern.match` is an instance under the assignment read off the result (one chosen
-alternative per OR occurrence, tag variables bound to the chosen alternative's tag), every checker that
-ran accepted, the outputs are the images of the pattern outputs, `match.nodes` is the image of the
-node bindings in binding order, and with `remove_nodes` the matched nodes are removable.  What is *not* guaranteed for such patterns is completeness
-(`match_complete_full_refuted`, finding C06-D11).  Before the repair the statement was false
-(`match_sound_or_prefix_refuted`). -/
-theorem match_sound_or_partial (E : Env) (root : NodeId) (rm : Bool) (r : Result)
-    (hf3 : E.fixF3 = true) (hno : E.p.backOk = true) (htopo : E.p.topoDeep)
+/-- **Soundness — the whole pattern language** (the committed code: repairs C06-F1 /repo 778bd07 and
+C06-F3 /repo e143b53 in place, `E.fixF1`/`E.fixF3` at their defaults).  For *every* pattern —
+`BacktrackingOr` and `OpIdDispatchOr` nested arbitrarily, with or without tag variables, tag variables
+shared between OR values or clashing with other bindings, any number of output nodes — a match reported
+by `Pattern.match` is an instance under the assignment read off the result (one chosen alternative per OR
+occurrence, every tag variable bound to the chosen alternative's tag), every checker that ran accepted,
+the outputs are the images of the pattern outputs, `match.nodes` is the image of the node bindings in
+binding order, every declared pattern input is bound (to `None` when the match did not bind it), and with
+`remove_nodes` the matched nodes are removable.
+
+The remaining hypotheses are not restrictions of the pattern language: `topoDeep` is the well-formedness
+of the encoding (a node pattern refers to earlier node patterns; builder-made patterns cannot be cyclic),
+`fixF3`/`fixF1` pin the revision (for the code before the repairs the statement is false:
+`match_sound_or_prefix_refuted`, `match_sound_extra_outputs_prefix_refuted`).
+
+`_match_value` ignores the result of `bind(tag_var, i)` for an `OpIdDispatchOr`: on a clash it marks the
+partial match failed and goes on returning `True`.  The proof (`Lemmas/C06SoundTag.lean`) carries every
+invariant relative to "no partial match on the stack is failed"; a failed partial match is never merged
+into its parent (`topOk` before `mergeTop`) and never reported (`finish`).  What is *not* guaranteed is
+completeness (`match_complete_full_refuted`, finding C06-D11). -/
+theorem match_sound (E : Env) (root : NodeId) (rm : Bool) (r : Result)
+    (hf3 : E.fixF3 = true) (htopo : E.p.topoDeep)
     (har : E.fixF1 = true ∨ OutputArityOk E.p E.g) (h : patternMatch E root rm = some r) :
     Instance E root r.assign ∧ ChecksPass E.p r.assign ∧
       (rm = true → Removable E.g r.nodes r.outputs) ∧
       E.p.outputs.mapM (r.assign.outputOf E.p) = some r.outputs ∧
-      r.nodes = r.nb.map (·.2) :=
-  patternMatch_soundS E root rm r hf3 hno htopo har h
+      r.nodes = r.nb.map (·.2) ∧
+      (∀ nm, some nm ∈ E.p.inputs → ∃ b, r.assign.names nm = some b) :=
+  patternMatch_soundT E root rm r hf3 htopo har h
 
 /-- **The reported bindings / nodes / outputs are exactly the instance's.**  Under the same
 hypotheses: `r.outputs` are the images of the pattern outputs in order (by name when named, by
 object identity otherwise), `r.nodes` is the image of the pattern nodes in binding order, and
-every declared pattern input is bound (to `None` when the match did not bind it). -/
+every declared pattern input is bound (to `None` when the match did not bind it).  For the committed
+revision (`fixF3 = true`) `match_sound` states the same for the whole pattern language; this theorem also
+covers the code before repair C06-F3 on dispatch-only patterns. -/
 theorem bindings_exact_partial (E : Env) (root : NodeId) (rm : Bool) (r : Result)
     (hno : E.p.dispOk = true) (htopo : E.p.topoDeep) (har : E.fixF1 = true ∨ OutputArityOk E.p E.g)
     (h : patternMatch E root rm = some r) :
@@ -105,6 +120,34 @@ theorem match_complete_or_partial (E : Env) (A : Assign) (root : NodeId) (np0 : 
     ∃ r, patternMatch E root false = some r ∧
       ((patternMatch E root true).isSome = true ↔ Removable E.g r.nodes r.outputs) :=
   patternMatch_complete_or E A root np0 hf3 hbk hex htopo har hsingle hroot hinst hchk
+
+/-- **Completeness for leftmost instances — what `BacktrackingOr` cannot miss** (code after repair C06-F3).
+`BacktrackingOr` commits to the first alternative that succeeds (finding C06-D11).  Call an instance
+*leftmost* (`InstanceL`: `SatV`/`SatN` with one more premise at the BacktrackingOr rule) when at every
+BacktrackingOr occurrence it takes alternative `i` and no earlier alternative describes that value under
+any assignment.  Every leftmost instance with accepting checkers is reported — no exclusivity of the
+alternatives is assumed (`OrValue([Neg(x), x])`, the D11 pattern, is covered: `lmEnv` below).  This
+weakens the hypothesis `exclOk` of `match_complete_or_partial` from "the alternatives of every
+BacktrackingOr are mutually exclusive" to "this instance never needs a later alternative where an earlier
+one could apply" (`leftmost_of_exclusive`: the former implies the latter for every instance).  The
+remaining hypotheses are those of `match_complete_or_partial`: no tagged OpIdDispatchOr (`backOk`; inside
+an alternative forced by finding C06-F9), no checker on named variables (`nuOk`, limit of the declarative
+`ChecksPass`), one output node whose outputs are the pattern outputs.  The converse fails: the matcher
+also takes a later alternative when an earlier one is satisfiable in isolation but clashes with bindings
+made before, so a reported match need not be leftmost in this sense. -/
+theorem match_complete_leftmost_partial (E : Env) (A : Assign) (root : NodeId) (np0 : NPId)
+    (hf3 : E.fixF3 = true) (hbk : E.p.backOk = true) (hnu : E.p.nuOk) (htopo : E.p.topoDeep)
+    (har : E.fixF1 = true ∨ OutputArityOk E.p E.g) (hsingle : E.p.outputNodes = [np0])
+    (hroot : OutputsOfRoot E.p np0) (hinst : InstanceL E root A) (hchk : ChecksPass E.p A) :
+    ∃ r, patternMatch E root false = some r ∧
+      ((patternMatch E root true).isSome = true ↔ Removable E.g r.nodes r.outputs) :=
+  patternMatch_complete_leftmost E A root np0 hf3 hbk hnu htopo har hsingle hroot hinst hchk
+
+/-- with mutually exclusive alternatives every instance is leftmost (so `match_complete_leftmost_partial`
+contains `match_complete_or_partial`), and a leftmost instance is an instance -/
+theorem leftmost_of_exclusive (E : Env) (root : NodeId) (A : Assign) (hex : GPat.exclOk E) :
+    (Instance E root A → InstanceL E root A) ∧ E.p.nuOk ∧ (InstanceL E root A → Instance E root A) :=
+  ⟨instance_leftmost_of_excl hex, exclOk_nuOk hex, fun h => h.1⟩
 
 /-- **A match is reported exactly when the subgraph is an instance** — the property's sentence as one
 theorem, for the fragment where both directions hold: repaired `merge` (C06-F3), no OpIdDispatchOr with tag
@@ -510,7 +553,7 @@ def orEnv : Env :=
            outputs := [2], consts := [], foreign := [], extUses := [] }
     close := closeEq }
 
-/-- `match_sound_or_partial` is not vacuous: a pattern with a tagged BacktrackingOr satisfies its hypotheses
+/-- `match_sound` is not vacuous: a pattern with a tagged BacktrackingOr satisfies its hypotheses
 and is matched (tag variable bound to the first alternative's tag) -/
 example : orEnv.fixF3 = true ∧ orEnv.p.backOk = true ∧ orEnv.p.dispOk = false ∧ orEnv.p.topoDeep ∧
     (patternMatch orEnv 1 true).map (fun r => r.bindings) =
@@ -554,6 +597,42 @@ def dispEnv : Env :=
     g := { nodes := [mkGNode "Neg" [some 0] [1], mkGNode "Add" [some 1, some 2] [3]],
            outputs := [3], consts := [], foreign := [], extUses := [] }
     close := closeEq }
+
+/-- `Add(OrValue([Neg(x), Abs(x)], tag_var="t"), OrValue([Neg(x), Abs(x)], tag_var=t2))` — two tagged
+OpIdDispatchOr values — against `n = Neg(a); m = Abs(a); s = Add(n, m)` -/
+def tagEnv (t2 : String) : Env :=
+  let alts : List DAlt := [{ domain := "", op := "Neg", tag := 0, np := 0, idx := 0 },
+                           { domain := "", op := "Abs", tag := 1, np := 1, idx := 0 }]
+  { p := { inputs := [some "x"], cond := true,
+           nodes := [mkNode "Neg" [some xVar] 1, mkNode "Abs" [some xVar] 1,
+                     mkNode "Add" [some (.orD 3 none (some "t") alts), some (.orD 4 none (some t2) alts)] 1],
+           outputs := [.out 2 0] }
+    g := { nodes := [mkGNode "Neg" [some 0] [1], mkGNode "Abs" [some 0] [2], mkGNode "Add" [some 1, some 2] [3]],
+           outputs := [3], consts := [], foreign := [], extUses := [] }
+    close := closeEq }
+
+/-- `match_sound` covers what `backOk` excluded: tagged dispatch ORs.  With two tag variables the pattern is
+matched and both tags are bound; with one shared tag variable the second `bind` clashes, its result is
+ignored by `_match_value`, the partial match is failed and no match is reported. -/
+example : (tagEnv "u").p.backOk = false ∧ (tagEnv "u").fixF3 = true ∧ (tagEnv "u").fixF1 = true ∧
+    (tagEnv "u").p.topoDeep ∧
+    (patternMatch (tagEnv "u") 2 true).map (fun r => r.bindings) =
+      some [("x", .val 0), ("t", .tag 0), ("u", .tag 1)] ∧
+    patternMatch (tagEnv "t") 2 true = none ∧ (matcherMatch (tagEnv "t") 2 true).ok = false := by
+  refine ⟨by decide, rfl, rfl, ?_, by decide, by decide, by decide⟩
+  intro np P hP vp hin q hq
+  match np with
+  | 0 => simp [tagEnv, mkNode] at hP; subst hP; simp [xVar] at hin; subst hin; simp [VPat.refs] at hq
+  | 1 => simp [tagEnv, mkNode] at hP; subst hP; simp [xVar] at hin; subst hin; simp [VPat.refs] at hq
+  | 2 =>
+    simp [tagEnv, mkNode] at hP; subst hP
+    simp at hin
+    rcases hin with rfl | rfl
+    · simp [VPat.refs] at hq
+      rcases hq with rfl | rfl <;> decide
+    · simp [VPat.refs] at hq
+      rcases hq with rfl | rfl <;> decide
+  | n + 3 => simp [tagEnv] at hP
 
 /-- `match_sound_partial` applies to a pattern with a dispatch OR, and that pattern matches -/
 example : dispEnv.p.dispOk = true ∧ dispEnv.p.noOr = false ∧ dispEnv.p.topoDeep ∧
@@ -866,6 +945,147 @@ example : exEnv.p.topoDeep ∧ exEnv.fixF1 = true := by
     · simp [VPat.refs, refsL] at hq; simp [hq]
     · simp [VPat.refs] at hq
   | n + 2 => simp [exEnv] at hP
+
+/-- the D11 pattern `Add(OrValue([Neg(x), x]), x)` against `n = Neg(a); y = Add(n, a)`: the instance takes
+the first alternative -/
+def lmEnv : Env := { d11 with g := { nodes := [mkGNode "Neg" [some 0] [1], mkGNode "Add" [some 1, some 0] [2]],
+                                     outputs := [2], consts := [], foreign := [], extUses := [] } }
+
+def lmAssign : Assign :=
+  { names := fun k => if k = "x" then some (.val 0) else none
+    node := fun np => if np = 0 then some 0 else if np = 1 then some 1 else none
+    leaf := fun k => if k = .leaf 2 then some (some 1) else if k = .outp 0 0 then some (some 1)
+                     else if k = .outp 1 0 then some (some 2) else none }
+
+/-- `match_complete_leftmost_partial` is not vacuous and says more than `match_complete_or_partial`: the
+alternatives of the D11 pattern are *not* exclusive (`Neg`'s output satisfies both), `lmAssign` is a
+leftmost instance, and the match is reported -/
+example : InstanceL lmEnv 1 lmAssign ∧ ChecksPass lmEnv.p lmAssign ∧ ¬ GPat.exclOk lmEnv ∧
+    lmEnv.p.backOk = true ∧ lmEnv.p.nuOk ∧ lmEnv.p.outputNodes = [1] ∧ OutputsOfRoot lmEnv.p 1 ∧
+    (patternMatch lmEnv 1 true).isSome = true := by
+  have hx : SatVL lmEnv lmAssign xVar (some 0) :=
+    .var 1 (some "x") true false none (some 0)
+      (by simp [Assign.boundTo, GPat.vname, lmAssign, Bound.ofVal]) (by intro h; cases h)
+      (by intro x _ h; simp [lmEnv, Graph.isForeign] at h)
+  have hn0 : SatNL lmEnv lmAssign 0 0 := by
+    refine .mk 0 0 (mkNode "Neg" [some xVar] 1) (mkGNode "Neg" [some 0] [1]) rfl rfl rfl
+      (by decide) (by decide) ?_ (.inl (by decide)) ?_ ?_ ?_
+    · exact ⟨fun name ap h => by simp [mkNode] at h, fun h => by simp [mkNode] at h⟩
+    · intro i h
+      match i with
+      | 0 => simp [mkNode] at h
+      | n + 1 => simp [mkNode] at h
+    · intro i vp h
+      match i with
+      | 0 => simp [mkNode] at h; subst h; exact hx
+      | n + 1 => simp [mkNode] at h
+    · intro i hi
+      have : i = 0 := by simp [mkNode] at hi; omega
+      subst this
+      exact ⟨1, rfl, by simp [Assign.boundTo, GPat.vname, GPat.outName, VPat.key, lmAssign, lmEnv, d11, mkNode]⟩
+  have ho : SatVL lmEnv lmAssign (.out 0 0) (some 1) :=
+    .out 0 0 1 0 (by simp [Assign.boundTo, GPat.vname, GPat.outName, VPat.key, lmAssign, lmEnv, d11, mkNode])
+      (by simp [lmEnv, Graph.isForeign]) (by decide) (by decide) hn0
+  have hor : SatVL lmEnv lmAssign (.orB 2 none none [0, 1] [.out 0 0, xVar]) (some 1) :=
+    .orB 2 none none [0, 1] _ (some 1) 0 (.out 0 0)
+      (by simp [Assign.boundTo, GPat.vname, VPat.key, lmAssign])
+      (by intro x _; simp [lmEnv, Graph.isForeign]) rfl ho (by intro t h; cases h)
+      (fun j hj => absurd hj (Nat.not_lt_zero _))
+  have hn1 : SatNL lmEnv lmAssign 1 1 := by
+    refine .mk 1 1 (mkNode "Add" [some (.orB 2 none none [0, 1] [.out 0 0, xVar]), some xVar] 1)
+      (mkGNode "Add" [some 1, some 0] [2]) rfl rfl rfl (by decide) (by decide) ?_ (.inl (by decide)) ?_ ?_ ?_
+    · exact ⟨fun name ap h => by simp [mkNode] at h, fun h => by simp [mkNode] at h⟩
+    · intro i h
+      match i with
+      | 0 => simp [mkNode] at h
+      | 1 => simp [mkNode] at h
+      | n + 2 => simp [mkNode] at h
+    · intro i vp h
+      match i with
+      | 0 => simp [mkNode] at h; subst h; exact hor
+      | 1 => simp [mkNode] at h; subst h; exact hx
+      | n + 2 => simp [mkNode] at h
+    · intro i hi
+      have : i = 0 := by simp [mkNode] at hi; omega
+      subst this
+      exact ⟨2, rfl, by simp [Assign.boundTo, GPat.vname, GPat.outName, VPat.key, lmAssign, lmEnv, d11, mkNode]⟩
+  refine ⟨⟨⟨?_, ?_, rfl⟩, ?_⟩, ⟨?_, ?_⟩, ?_, by decide, ?_, by decide, ?_, by decide⟩
+  · intro np h
+    have : np = 1 := by simpa [lmEnv, d11, GPat.outputNodes, GPat.outputNodesCov] using h.symm
+    subst this; rfl
+  · intro np h
+    have : np = 1 := by simpa [lmEnv, d11, GPat.outputNodes, GPat.outputNodesCov] using h
+    subst this
+    exact ⟨1, rfl, hn1.toSatN⟩
+  · intro np h n hn
+    have : np = 1 := by simpa [lmEnv, d11, GPat.outputNodes, GPat.outputNodesCov] using h
+    subst this
+    have : n = 1 := by simpa [lmAssign] using hn.symm
+    subst this
+    exact hn1
+  · intro np n P hnode hP
+    match np with
+    | 0 => simp [lmEnv, d11, mkNode] at hP; subst hP; simp
+    | 1 => simp [lmEnv, d11, mkNode] at hP; subst hP; simp
+    | k + 2 => simp [lmEnv, d11] at hP
+  · intro id v _
+    simp [lmEnv, d11, GPat.valueChecks, mkNode, vpChecks, vpChecksL, xVar]
+  · intro hex
+    have h1 := (hex (mkNode "Add" [some (.orB 2 none none [0, 1] [.out 0 0, xVar]), some xVar] 1)
+      (by simp [lmEnv, d11]) (.orB 2 none none [0, 1] [.out 0 0, xVar]) (by simp [mkNode])).1
+    simp only [VPat.excl] at h1
+    have hx1 : SatV lmEnv { lmAssign with names := fun k => if k = "x" then some (.val 1) else none } xVar (some 1) :=
+      .var 1 (some "x") true false none (some 1)
+        (by simp [Assign.boundTo, GPat.vname, Bound.ofVal]) (by intro h; cases h)
+        (by intro x _ h; simp [lmEnv, Graph.isForeign] at h)
+    exact h1.1 (some 1) 0 1 (.out 0 0) xVar (by decide) rfl rfl ⟨_, hx1⟩ lmAssign ho.toSatV
+  · intro P hP vp hin
+    simp [lmEnv, d11, mkNode] at hP
+    rcases hP with rfl | rfl
+    · simp [xVar] at hin; subst hin; rfl
+    · simp at hin
+      rcases hin with rfl | rfl <;> rfl
+  · intro vp hvp
+    simp [lmEnv, d11] at hvp
+    subst hvp
+    exact ⟨0, _, rfl, rfl, by simp [mkNode]⟩
+
+/-- what finding C06-D11 is, exactly, on its witness: `d11Assign` is an instance (`d11_is_instance`) but the
+subgraph has *no leftmost* instance — every instance needs the second alternative at a value the first one
+also describes — and that is the only way `match_complete_leftmost_partial` lets a match be missed -/
+example : ¬ ∃ A, InstanceL d11 1 A ∧ ChecksPass d11.p A := by
+  rintro ⟨A, hi, hc⟩
+  have hnu : d11.p.nuOk := by
+    intro P hP vp hin
+    simp [d11, mkNode] at hP
+    rcases hP with rfl | rfl
+    · simp [xVar] at hin; subst hin; rfl
+    · simp at hin
+      rcases hin with rfl | rfl <;> rfl
+  have htopo : d11.p.topoDeep := by
+    intro np P hP vp hin q hq
+    match np with
+    | 0 =>
+      simp [d11, mkNode] at hP; subst hP
+      simp [xVar] at hin; subst hin
+      simp [VPat.refs] at hq
+    | 1 =>
+      simp [d11, mkNode] at hP; subst hP
+      simp [xVar] at hin
+      rcases hin with rfl | rfl
+      · simp [VPat.refs, refsL] at hq; simp [hq]
+      · simp [VPat.refs] at hq
+    | n + 2 => simp [d11] at hP
+  have hroot : OutputsOfRoot d11.p 1 := by
+    intro vp hvp
+    simp [d11] at hvp
+    subst hvp
+    exact ⟨0, _, rfl, rfl, by simp [mkNode]⟩
+  obtain ⟨r, hr, _⟩ := match_complete_leftmost_partial d11 A 1 1 rfl (by decide) hnu htopo (.inl rfl)
+    (by decide) hroot hi hc
+  have hnone : patternMatch d11 1 false = none := by decide
+  rw [hnone] at hr
+  cases hr
 
 def f2Pat : GPat :=
   { inputs := [some "x"], cond := true,
